@@ -204,3 +204,77 @@ def run(ck, prog):
     _run_pre_negcast(ck, prog)
     from sa import negcast
     negcast.run_rule(ck, prog, set(DIMENSION_FILES))
+
+
+# ------------------------------------------------------------------ BBD tree: proper partitions at every scale
+_run_pre_cutoff = run
+
+
+def bbd_partition(ck, prog):
+    """'The tree-accelerated assignment step ... produces, for any set of centroids, an assignment ...': build_node splits the
+    rows of a node at the midpoint of their extreme values along the widest dimension (rows below the cut-off go down).
+    For adjacent floating-point extremes the midpoint rounds down to the lower bound: no row is below it, the lower half
+    is empty and the recursion never ends (stack overflow, or `attempt to subtract with overflow` at index 0). Necessary
+    condition: the cut-off used by the partition is selected under a comparison of the midpoint with a bound.
+    Scale: a node is a leaf by a zero test of its radius, not by an absolute constant (E4): with `radius < 1e-10` a whole
+    data set of small magnitude collapses into one leaf."""
+    rule, inst = "E1-guard", "BBDTree::build_node: the split cut-off is the midpoint only if that lies above the lower bound"
+    b = prog.bodies.get("algorithm::neighbour::bbd_tree::BBDTree::<T>::build_node")
+    if b is None:
+        ck.violation(rule, inst, "build_node", "", expected="anchor exists", found="anchor vanished")
+        return
+    cx = BodyCtx.of(b)
+    res = cx.res
+    # the cut-off: right-hand side of the comparisons whose other side is a data element read through self.index
+    is_elem = lambda t: t[0] == "call" and t[1].endswith("BaseMatrix::get") and any(s[0] == "field" and s[2] == "index" for s in subterms(t))
+    cut = None
+    site = f"{b.loc[0]}:{b.loc[1]}"
+    for c in cx.cmps:
+        for (L, R) in ((c.lhs, c.rhs), (c.rhs, c.lhs)):
+            if is_elem(L) and not is_elem(R) and R[0] != "phi" or (is_elem(L) and R[0] == "phi" and not any(is_elem(a) for a in R[2])):
+                if any(s[0] == "field" and s[2] == "center" for s in subterms(R)) or R[0] == "phi":
+                    cut, site = R, c.where
+    if cut is None:
+        ck.note(f"{inst}: no partition test `element ? cut-off` with a cut-off derived from node.center: no instance")
+    else:
+        mids = [s for s in subterms(cut) if s[0] == "idx" and any(x[0] == "field" and x[2] == "center" for x in subterms(s[1]))]
+        mid = mids[0] if mids else None
+        guarded = cut[0] == "phi" and mid is not None and any((c.lhs == mid or c.rhs == mid or
+                                                               any(x == mid for x in subterms(c.lhs)) or any(x == mid for x in subterms(c.rhs)))
+                                                              and not is_elem(c.lhs) and not is_elem(c.rhs) for c in cx.cmps)
+        if guarded:
+            ck.ok(rule, inst, b.path, site, f"cut-off `{render(cut)[:80]}` is selected under a comparison of the midpoint with a bound")
+        else:
+            ck.violation(rule, inst, b.path, site,
+                         expected="the midpoint is used as cut-off only if it compares above the lower bound, otherwise the upper bound is used",
+                         found=f"cut-off = `{render(cut)[:80]}` unconditionally: for adjacent floating-point extremes the midpoint equals the lower "
+                               f"bound, the lower half is empty and build_node recurses on the same range")
+    # leaf test: no comparison of a node quantity with a positive literal (node.* are partial stores into a local struct,
+    # which the generic E4 classifier does not follow, so the literal is looked for directly)
+    import re as _re
+    rule2, inst2 = "E4-scale", "BBDTree::build_node: no node quantity is compared with a positive literal"
+    lit = []
+    for c in cx.cmps:
+        for side in (c.lhs, c.rhs):
+            for s_ in subterms(side):
+                if s_[0] == "const":
+                    m = _re.search(r"(-?[0-9]+\.?[0-9]*(?:[eE]-?[0-9]+)?)", s_[1].replace("const ", ""))
+                    if m and ("f64" in s_[1] or "f32" in s_[1] or "." in m.group(1) or "e" in m.group(1).lower()):
+                        try:
+                            if float(m.group(1)) > 0:
+                                lit.append((c.where, render(side)[:50]))
+                        except ValueError:
+                            pass
+    if lit:
+        ck.violation(rule2, inst2, b.path, lit[0][0], expected="leaf/termination tests are zero tests (scale-free)",
+                     found=f"comparison with `{lit[0][1]}`: data whose whole range is below that constant collapse into one leaf")
+    else:
+        ck.ok(rule2, inst2, b.path, f"{b.loc[0]}:{b.loc[1]}", f"{len(cx.cmps)} comparisons, none against a positive floating-point literal")
+
+
+def run(ck, prog):
+    _run_pre_cutoff(ck, prog)
+    bbd_partition(ck, prog)
+
+
+EXPLANATION += (' (D) BBD tree partition: the cut-off is the midpoint only under a comparison with a bound, and the leaf test is a zero test (found and fixed: endless recursion for adjacent floating-point extremes, collapse of small-scale data).')
